@@ -1,7 +1,7 @@
 (* C11 - Tangents, curvature and Jacobians are the true derivatives. Statements only. *)
 From Coq Require Import List Arith QArith Qcanon.
 From BZ Require Import Base.Ops Base.PyVal Model.Curve Gen.PyFnHelpers Gen.PyFnTriangle Gen.PyFnTriangleIntersection
-  Theory.CurveDeriv Theory.TriBlossom Theory.Predicates Model.Triangle Theory.TriLink Theory.TriLink2 Theory.TriJacList.
+  Theory.CurveDeriv Model.NewtonSystems Theory.NewtonSystems Theory.TriBlossom Theory.Predicates Model.Triangle Theory.TriLink Theory.TriLink2 Theory.TriJacList.
 Import ListNotations.
 
 (* the hodograph is the derivative: in the ring of dual numbers T[eps]/(eps^2), B[v]((1-s) - eps, s + eps)
@@ -68,3 +68,35 @@ Theorem C11_newton_step_triangle_exact : forall a b c d x sx y sy ds dt : Q, ~ a
   a * ds + c * dt == x - sx /\ b * ds + d * dt == y - sy.
 Proof. exact newton_refine_solve_spec. Qed.
 Print Assumptions C11_newton_step_triangle_exact.
+
+(* the two Newton SYSTEMS of the curve-curve end game (hand model Model/NewtonSystems.v of NewtonSimpleRoot / NewtonDoubleRoot,
+   derivative nets built as full_newton_nonzero builds them; tied by correspondence): the Jacobian each of them uses is the
+   formal derivative of the function it is used with -
+     G(s + eps, t) = G(s, t) + eps * (first column of DG),  G(s, t + eps) = G(s, t) + eps * (second column of DG)
+   for G = [B1(s) - B2(t); B1'(s) x B2'(t)].  Every pair of degrees, any commutative ring *)
+Theorem C11_double_root_jacobian_is_the_derivative : forall (T : Type) (K : Ops T), ring_of K ->
+  forall (x1 y1 x2 y2 : list T) (s t : T),
+  let d := double_root K x1 y1 x2 y2 s t in
+  let G := (g1 d, g2 d, g3 d) in
+  Gfun (DualOps K) (dualB K x1 s) (dualB K y1 s) (lift K (Bv K x2 t)) (lift K (Bv K y2 t))
+       (dualB K (dnet K x1) s) (dualB K (dnet K y1) s) (lift K (Bv K (dnet K x2) t)) (lift K (Bv K (dnet K y2) t))
+  = with_eps G (col1 d) /\
+  Gfun (DualOps K) (lift K (Bv K x1 s)) (lift K (Bv K y1 s)) (dualB K x2 t) (dualB K y2 t)
+       (lift K (Bv K (dnet K x1) s)) (lift K (Bv K (dnet K y1) s)) (dualB K (dnet K x2) t) (dualB K (dnet K y2) t)
+  = with_eps G (col2 d).
+Proof. exact @double_root_jacobian_is_the_derivative. Qed.
+Print Assumptions C11_double_root_jacobian_is_the_derivative.
+(* ... where B[v](s + eps) over the dual numbers is (B[v](s), B[dnet v](s)): dnet IS the derivative net, for nets of any size *)
+Theorem C11_derivative_net : forall (T : Type) (K : Ops T), ring_of K ->
+  forall (v : list T) (s : T), dualB K v s = (Bv K v s, Bv K (dnet K v) s).
+Proof. exact @dualB_spec. Qed.
+Print Assumptions C11_derivative_net.
+Theorem C11_simple_root_jacobian_is_the_derivative : forall (T : Type) (K : Ops T), ring_of K ->
+  forall (x1 y1 x2 y2 : list T) (s t : T),
+  let '(F, (a11, a12, a21, a22)) := simple_root K x1 y1 x2 y2 s t in
+  (osub (DualOps K) (dualB K x1 s) (lift K (Bv K x2 t)), osub (DualOps K) (dualB K y1 s) (lift K (Bv K y2 t)))
+    = ((fst F, a11), (snd F, a21)) /\
+  (osub (DualOps K) (lift K (Bv K x1 s)) (dualB K x2 t), osub (DualOps K) (lift K (Bv K y1 s)) (dualB K y2 t))
+    = ((fst F, a12), (snd F, a22)).
+Proof. exact @simple_root_jacobian_is_the_derivative. Qed.
+Print Assumptions C11_simple_root_jacobian_is_the_derivative.
